@@ -73,3 +73,31 @@ Definition check_c20j (c : bytes * list N * bytes) : bool :=
   beq (js_escape (fun r => existsb (N.eqb r) pr) s) obs.
 (* toJSON: (value, observed) *)
 Definition check_c20json (c : json * bytes) : bool := beq (to_json (fst c)) (snd c).
+
+(* ---- lexer ---- *)
+From Plush Require Import model.Lexer.
+Definition tok_eqb (a : token) (b : N * bytes * nat) : bool :=
+  let '(k, lit, ln) := b in
+  (tkind_code (tk a) =? k)%N && beq (tlit a) lit && Nat.eqb (tline a) ln.
+Fixpoint toks_eqb (a : list token) (b : list (N * bytes * nat)) : bool :=
+  match a, b with
+  | [], [] => true
+  | x :: a', y :: b' => tok_eqb x y && toks_eqb a' b'
+  | _, _ => false
+  end.
+(* drop the EOFs that follow the first EOF of the trailing run *)
+Fixpoint trim_eofs (ts : list token) : list token :=
+  match ts with
+  | [] => []
+  | t :: r =>
+      match tk t with
+      | EOF => if forallb (fun x => tkind_eqb (tk x) EOF) r then [t] else t :: trim_eofs r
+      | _ => t :: trim_eofs r
+      end
+  end.
+(* (input, observed tokens (kind code, literal, line)) *)
+Definition check_lex (c : bytes * list (N * bytes * nat)) : bool :=
+  match lex (fst c) with
+  | Some ts => toks_eqb (trim_eofs ts) (snd c)
+  | None => false
+  end.
